@@ -23,7 +23,7 @@ GOENV.pop("GOSUMDB", None)
 TRUSTED_BASE = [
     "Coq 8.16.1 kernel (coqc); vm_compute used, native_compute not used",
     "no Axiom/Parameter/Admitted in /verif/coq (grep-checked on every run); Print Assumptions output recorded below",
-    "extraction: ExtrOcamlBasic only (Extract Inductive bool/option/unit/list/prod/sumbool/sumor, Extract Inlined Constant for their projections); nat/positive/N/Z stay Coq datatypes; OCaml 4.13.1 compiler; ocaml/driver.ml",
+    "extraction: ExtrOcamlBasic only (Extract Inductive bool/option/unit/list/prod/sumbool/sumor, Extract Inlined Constant for their projections); nat/positive/N/Z stay Coq datatypes; OCaml 4.13.1 compiler; ocaml/driver.ml (and, for the reader stream of C10, ExtractReader.v + ocaml/rddriver.ml)",
     "hand-written Gallina model tied to /repo by the correspondence run described in coverage (differential execution of the extracted model and the implementation built from /repo's working tree)",
     "Go toolchain used to build the implementation side",
 ]
@@ -218,6 +218,46 @@ def ensure_model(timeout=900):
                 cwd=d, timeout=timeout, check=True)
         shutil.copy(os.path.join(VERIF, "ocaml", "driver.ml"), d)
         run(["ocamlfind", "ocamlopt", "-O2", "-w", "-a", "pegmodel.mli", "pegmodel.ml", "driver.ml", "-o", "pegmodel"],
+            cwd=d, timeout=timeout, check=True)
+        return exe
+
+
+def ensure_reader(timeout=900):
+    """Extract the reader's executable side (ExtractReader.v: fshow, file_okb, file_nodes, frun) and build its
+    driver (ocaml/rddriver.ml).  Separate from the main model: it needs Reader/*.vo, proofs included."""
+    h = hashlib.sha256()
+    for root, _, files in sorted(os.walk(os.path.join(COQ, "theories"))):
+        if os.path.basename(root) == "Properties":
+            continue
+        for f in sorted(files):
+            if f.endswith(".v"):
+                h.update(f.encode())
+                h.update(open(os.path.join(root, f), "rb").read())
+    h.update(open(os.path.join(VERIF, "ocaml", "rddriver.ml"), "rb").read())
+    tag = h.hexdigest()[:16]
+    d = os.path.join(BUILD, "reader-" + tag)
+    exe = os.path.join(d, "pegreader")
+    with Lock("model"):
+        if os.path.exists(exe):
+            return exe
+        for x in os.listdir(BUILD):
+            if x.startswith("reader-"):
+                shutil.rmtree(os.path.join(BUILD, x), ignore_errors=True)
+        os.makedirs(d, exist_ok=True)
+        ok, mlog = coq_make(target="theories/Reader/DecideFile.vo")
+        ok2, mlog2 = coq_make(target="theories/Reader/FileBridge.vo")
+        if not (ok and ok2):
+            raise RuntimeError("the reader part of the Coq development does not build, cannot extract it:\n" + (mlog + mlog2)[-3000:])
+        with Lock("coq"):
+            run(["coqc", "-Q", os.path.join(COQ, "theories"), "PegV", os.path.join(COQ, "theories", "ExtractReader.v")],
+                cwd=d, timeout=timeout, check=True)
+            for junk in ("ExtractReader.vo", "ExtractReader.glob", ".ExtractReader.aux", "ExtractReader.vok", "ExtractReader.vos"):
+                try:
+                    os.remove(os.path.join(COQ, "theories", junk))
+                except OSError:
+                    pass
+        shutil.copy(os.path.join(VERIF, "ocaml", "rddriver.ml"), d)
+        run(["ocamlfind", "ocamlopt", "-O2", "-w", "-a", "pegreader.mli", "pegreader.ml", "rddriver.ml", "-o", "pegreader"],
             cwd=d, timeout=timeout, check=True)
         return exe
 
